@@ -36,7 +36,7 @@ PROP = dict(
             dict(name="control-matrix", go_test="TestC14", runner="C14",
                  env=dict(quick=dict(VERIF_ALLMASKS=0), thorough=dict(VERIF_ALLMASKS=1))),
             dict(name="liquidation-auction-controls", go_test="TestC14X", runner="C14X",
-                 env=dict(quick=dict(VERIF_ALLMASKS=0, VERIF_AMOUNT_SAMPLE=2), thorough=dict(VERIF_ALLMASKS=1))),
+                 env=dict(quick=dict(VERIF_ALLMASKS=0, VERIF_AMOUNT_SAMPLE=2), thorough=dict(VERIF_ALLMASKS=1, VERIF_AMOUNT_SAMPLE2=3))),
         ],
         search_env=_search_env, search_rounds=1,   # the matrix is deterministic: one directed round (focused on the broken rows, or the full boundary matrix)
         rule="case = one message on its own store branch of the prepared state (one position of every kind): every method of the vault / locker / lend / liquidity / auctionsV2 msg servers, "
@@ -49,7 +49,7 @@ PROP = dict(
              "auction.BeginBlocker after a collateral price fall x breaker {off,on}. non-trivial = some control set and the uncontrolled run of the same message succeeds, or a sweep that started something / ran under the breaker; "
              "distinct by (handler, breaker, esm, mask). "
              "Workload liquidation-auction-controls (TestC14X): the same matrix (default amount x breaker x ESM phase x every price subset; every amount field x boundary amounts of the state - also those of the running "
-             "auctions, locked vaults, reserve funds, shutdown deposit - x controls x each single price the run reads; quick tier: a seed-chosen half of the boundary amounts) over every msgServer method of the "
+             "auctions, locked vaults, reserve funds, shutdown deposit - x controls x each single price the run reads; quick tier: a seed-chosen half of the boundary amounts; thorough tier: every control state x every price subset for a seed-chosen third of them, all of them in a directed search) over every msgServer method of the "
              "liquidation / auction / liquidationsV2 / auctionsV2 / esm / rewards / collector / tokenmint modules (GuardsCheck.x_matrix_handlers, from the regenerated registry) on the extended state of TestC12X "
              "(unhealthy positions, running auctions of both generations; the redemption on the executed-shutdown state); a liquidate message that succeeds under the breaker is a predicate failure; the runner "
              "demands that every such method was run where its uncontrolled run succeeds, under the breaker, with inactive prices and with boundary amounts",
@@ -57,8 +57,8 @@ PROP = dict(
                   "ESM execution is modelled by writing the ESMStatus record + price snapshots the ESM end-blocker would write",
                   "price feeds are env inputs (Twa records written directly)"],
         assumptions=["breaker scope as in DESIGN.md: locker withdraw/close and lend repay/close are outside the listed scope (recorded in Model/GuardsCheck.v)",
-                     "liquidation.MsgLiquidateBorrow and auction.MsgPlaceDutchLendBid are excluded from the price THEOREM (price errors assigned to _ on their paths); both are in the dynamic matrix: the lend bid's "
-                     "dropped error was reproduced (C14-F2, fixed); the cross-pool (bridged asset) branches of MsgLiquidateBorrow / CreteNewBorrow are not reached by the fixture (same-pool borrows only)",
+                     "liquidation.MsgLiquidateBorrow and auction.MsgPlaceDutchLendBid are excluded from the price THEOREM (price errors assigned to _ on their paths); both are in the dynamic matrix, with same-pool and cross-pool (bridged asset) borrows: "
+                     "the dropped errors of the health checks were reproduced (C14-F2, fixed); what remains discarded (CalcAssetPrice in liquidation.UpdateLockedBorrows and lend.CreteNewBorrow) is reached only after a checked lookup of the same feeds in the same message",
                      "breaker scope of the liquidation / auction / esm modules as reviewed in GuardsCheck.liquidation_msg_scope / x_breaker_out_of_scope: the liquidate messages must refuse; bids on running auctions, limit bids, "
                      "reserve funding, the external-keeper liquidation (collateral brought by an outside application; the code does not read the breaker) and the shutdown messages are not named by the property",
                      "'needed price' is observed, not derived: a feed the all-active run of the same message reads (SDK store trace) and whose value changes that run's outcome when scaled x1000 or /1000"],
